@@ -145,8 +145,14 @@ def gen_history(rng, t, enc, nops):
                 for i in range(p, p + len(data)):
                     written[i] = True
         elif r < 0.8:
-            ops.append(("G",))
-            ptr = len(a)          # the whole field was read: the pointer is at the end of the field
+            if enc != "text" and len(a) > 1 and rng.random() < 0.4:
+                # a slice of the field
+                gp = rng.randrange(len(a)); gn = rng.randint(1, len(a) - gp + 2)
+                ops.append(("G", gp, gn))
+                ptr = min(len(a), gp + gn)
+            else:
+                ops.append(("G",))
+                ptr = len(a)          # the whole field was read: the pointer is at the end of the field
         elif r < 0.88:
             ops.append(("F",)); ptr = 0      # the raw file is closed; it reopens at its beginning
         elif r < 0.93:
@@ -214,6 +220,10 @@ def main():
                     expect.append(("put", len(data)))
                     a = array_write(a, p, data, zero)
                     ml.append("P %d %s" % (p, gdlib.hexs([x for v in data for x in v])))
+                elif op[0] == "G" and len(op) == 3:
+                    sc.append("get a %d %d %d %d" % (t, off, op[1], op[2]))
+                    expect.append(("get", [x for v in a[op[1]:op[1] + op[2]] for x in v]))
+                    ml.append("G %d %d" % (op[1], op[2]))
                 elif op[0] == "G":
                     n = len(a) + 3
                     sc.append("get a %d %d 0 %d" % (t, off, n))
